@@ -17,7 +17,15 @@
 (*                     (the code before repair c83965a, finding D3).       *)
 (* Mode = "wallclock": the guard reads the replica's wall clock (the code  *)
 (*                     before repair 038a748, finding D1).                 *)
-(* The two deviations are kept as named, checkable counterexamples: TLC    *)
+(* Mode = "sharedscratch": a third hidden input, the requests a node     *)
+(*                     serves WHILE it executes the block (gRPC / JSON-RPC *)
+(*                     queries run on other goroutines).  Each storage    *)
+(*                     write builds its store key in scratch memory; in   *)
+(*                     this mode the scratch is shared with the readers,  *)
+(*                     so a reader that builds its own key between build  *)
+(*                     and use redirects the write to the account it asks *)
+(*                     about (the replica's hidden choice `q`).           *)
+(* The deviations are kept as named, checkable counterexamples: TLC        *)
 (* must refute Agree for them (Replicas_dev_*.cfg), which shows that the   *)
 (* model is able to see the kind of divergence the property is about.      *)
 (***************************************************************************)
@@ -66,12 +74,21 @@ Visit(w, order, evs, now) ==
 
 Init == rep = [r \in Reps |-> [w |-> W0, evs |-> <<>>, res |-> "ok"]] /\ n = 0
 
+(* what the concurrent readers of each replica ask about while the write's key sits in scratch memory *)
+Queries == IF Mode = "sharedscratch" THEN [Reps -> Addrs \cup {"none"}] ELSE {[r \in Reps |-> "none"]}
+(* the transaction's storage write: slot "s0" of account a, landing where the key says *)
+Write(w, a, q, v) ==
+  IF a = "none" THEN w ELSE
+  LET t == IF q = "none" THEN a ELSE q IN [w EXCEPT !.stor[t] = [x \in (DOMAIN @) \cup {"s0"} |-> IF x = "s0" THEN v ELSE @[x]]]
+
 Tx(T, SD) ==
   /\ n < MaxTx /\ n' = n + 1
   /\ \E wall \in [Reps -> Walls] :
      \E ord \in [Reps -> Perms(T)] :
+     \E q \in Queries :
+     \E wa \in {Sorted(T)[1], "none"} :
        rep' = [r \in Reps |->
-                 LET w1 == [rep[r].w EXCEPT !.touched = T, !.sd = SD]
+                 LET w1 == [Write(rep[r].w, wa, q[r], n + 1) EXCEPT !.touched = T, !.sd = SD]
                      o == IF Mode = "maporder" THEN ord[r] ELSE Sorted(T)
                      now == IF Mode = "wallclock" THEN wall[r] ELSE BlockTime
                      c == Visit(w1, o, <<>>, now)
